@@ -56,7 +56,7 @@ PROPS = {
     },
     "C01": {
         "coq": "Properties/C01.v",
-        "coq_extra": ["Properties/C16e.v"],
+        "coq_extra": ["Properties/C16e.v", "Properties/C01src.v"],
         "pinchecks": ["PinChecks/PcBody_enf.v", "PinChecks/PcEnforceGen.v", "PinChecks/PcEnforcerGen.v", "PinChecks/PcLiterals.v", "PinChecks/PcBody_fmacros.v", "PinChecks/PcEffector.v", "PinChecks/PcEffectorGen.v",
                       "PinChecks/PcBody_fconvert.v", "PinChecks/PcBody_util.v", "PinChecks/PcStrFnGen.v"] + ["PinChecks/PcBody_model.v", "PinChecks/PcStoreGen.v", "PinChecks/PcLinksGen.v", "PinChecks/PcRoleGraph.v", "PinChecks/PcRoleManagerGen.v"],
         "gen": "c01",
@@ -80,6 +80,7 @@ PROPS = {
     },
     "C17": {
         "coq": "Properties/C17.v",
+        "coq_extra": ["Properties/C17src.v"],
         "pinchecks": ["PinChecks/PcBody_enf.v", "PinChecks/PcEnforceGen.v", "PinChecks/PcEnforcerGen.v", "PinChecks/PcLiterals.v"],
         "gen": "c17",
         "level_text": "Coq theorem c17_ctx_eq_plain: for every suffix, every model whose suffixed r/p/e/m definitions are renamed copies "
@@ -134,6 +135,7 @@ PROPS.update({
     },
     "C10": {
         "coq": "Properties/C10.v",
+        "coq_extra": ["Properties/C10src.v"],
         "pinchecks": ENGINE_PINS + ["PinChecks/PcBody_fadaptermod.v"],
         "gen": "c10",
         "partial": "durability below the system-call layer (fsync, page cache, power loss) is outside any executable model: c10_save_atomic is about the sequence "
@@ -152,6 +154,7 @@ PROPS.update({
     },
     "C14": {
         "coq": "Properties/C14.v",
+        "coq_extra": ["Properties/C14src.v"],
         "pinchecks": ENGINE_PINS + ["PinChecks/PcBody_fwatcher.v"] + ["PinChecks/PcBody_femitter.v"],
         "gen": "c14",
         "level_text": "Coq theorems over the engine with a watcher: NotifyInv (exactly one callback while enabled) for every reachable state, c14_delivery_single "
@@ -181,6 +184,7 @@ PROPS.update({
     },
     "C08": {
         "coq": "Properties/C08.v",
+        "coq_extra": ["Properties/C08src.v"],
         "pinchecks": ENGINE_PINS + ["PinChecks/PcEffector.v", "PinChecks/PcEffectorGen.v"],
         "gen": "c08",
         "level_text": "Coq theorems: c08_eval_mono (negation-free matchers are monotone in the role relation), c08_has_link_mono (edge inclusion preserves "
@@ -194,6 +198,7 @@ PROPS.update({
     },
     "C19": {
         "coq": "Properties/C19.v",
+        "coq_extra": ["Properties/C19src.v"],
         "pinchecks": ENGINE_PINS,
         "gen": "c19",
         "level_text": "The full statement is REFUTED on reachable states of the faithful model (c19_full_statement_refuted; known finding D7: one role manager "
@@ -210,7 +215,7 @@ PROPS.update({
 PROPS.update({
     "C04": {
         "coq": "Properties/C04.v",
-        "coq_extra": ["Properties/SrcStep.v"],
+        "coq_extra": ["Properties/SrcStep.v", "Properties/C04src.v"],
         "pinchecks": ENGINE_PINS,
         "gen": "c04",
         "level_text": "Coq theorems over the engine: StoreInv (duplicate-free lists) for every reachable state of every history (c04_inv_run); each model-level "
@@ -226,6 +231,7 @@ PROPS.update({
     },
     "C05": {
         "coq": "Properties/C05.v",
+        "coq_extra": ["Properties/C05src.v"],
         "pinchecks": ENGINE_PINS,
         "gen": "c05",
         "level_text": "Coq theorems: the invariant RoleSync (edge set of every domain = links of the stored grouping rules, handles and g-functions on the current "
@@ -241,6 +247,7 @@ PROPS.update({
     },
     "C07": {
         "coq": "Properties/C07.v",
+        "coq_extra": ["Properties/C07src.v"],
         "pinchecks": ENGINE_PINS,
         "gen": "c07",
         "level_text": "Coq theorems: c07_view_preserved (a call confined to another domain leaves the observed domain's rules, grouping rules and graph untouched, "
@@ -253,6 +260,7 @@ PROPS.update({
     },
     "C12": {
         "coq": "Properties/C12.v",
+        "coq_extra": ["Properties/C12src.v"],
         "pinchecks": ENGINE_PINS + ["PinChecks/PcBody_fadaptermod.v"],
         "gen": "c12",
         "level_text": "Coq theorems for File, Memory and String adapters: the filtered load equals filter_spec applied to the full load, for any lines and filters "
@@ -281,6 +289,7 @@ PROPS.update({
 PROPS.update({
     "C11": {
         "coq": "Properties/C11.v",
+        "coq_extra": ["Properties/C11src.v"],
         "pinchecks": ENGINE_PINS + ["PinChecks/PcBody_fconvert.v"] + ["PinChecks/PcBody_fcachedenforcer.v", "PinChecks/PcCachedGen.v", "PinChecks/PcBody_fdefaultcache.v", "PinChecks/PcBody_femitter.v", "PinChecks/PcCached.v"],
         "gen": "c11",
         "level_text": "Coq theorems over Model/Cached.v: cache coherence is an invariant of every history over the complete mutating surface and every request "
@@ -294,7 +303,7 @@ PROPS.update({
     },
     "C18": {
         "coq": "Properties/C18.v",
-        "coq_extra": ["Properties/C18obs.v"],
+        "coq_extra": ["Properties/C18obs.v", "Properties/C18src.v", "Properties/C18obssrc.v"],
         "pinchecks": ENGINE_PINS,
         "gen": "c18",
         "level_text": "Coq theorems: after a successful set_model / set_adapter the state is st_equiv (identical answers to EVERY query, c18_ask_equiv) - indeed model "
